@@ -239,6 +239,33 @@ def build(targets, timeout=1500):
   return rc == 0, out
 
 
+def case_file_targets(mod):
+  """The compiled files that the generated case files of a check import (their preludes are string literals of the check's module,
+  of transeval.py and of probes.py): on a fresh tree they are not necessarily in the dependency cone of the property file."""
+  srcs = [getattr(mod, '__file__', None)]
+  try:
+    txt = open(srcs[0]).read()
+  except (OSError, TypeError):
+    return []
+  for extra in ('transeval', 'probes', 'genprobe'):
+    if extra in txt:
+      try:
+        txt += open(os.path.join(VERIF, 'harness', extra + '.py')).read()
+      except OSError:
+        pass
+  out = []
+  for m in re.finditer(r'From\s+DK(?:\.(\w+))?\s+Require\s+(?:Import|Export)\s+([A-Za-z0-9_. ]*)\.', txt):
+    sub, names = m.group(1), m.group(2).split()
+    for nm in names:
+      for d in ([sub] if sub else ['Base', 'Model', 'Gen', 'Proofs', 'Props']):
+        if os.path.exists(os.path.join(COQ, d, nm + '.v')):
+          t = '%s/%s.vo' % (d, nm)
+          if t not in out:
+            out.append(t)
+          break
+  return out
+
+
 def first_error(log):
   m = re.search(r'File "\./([^"]+)", line (\d+)[^\n]*\n(Error:?[^\n]*(?:\n[^\n]+){0,6})', log)
   if m:
@@ -527,7 +554,7 @@ def run_property(mod, tier, seed, replay=None):
   obligations += ['theorem:%s' % t for t in thms]
   axioms = {}
   if not any(b['kind'] == 'translator' for b in broken):
-    vo_targets = [mod.PROPS[:-2] + '.vo'] + [m[:-2] + '.vo' for m in getattr(mod, 'EXTRA_VO', [])]
+    vo_targets = [mod.PROPS[:-2] + '.vo'] + [m[:-2] + '.vo' for m in getattr(mod, 'EXTRA_VO', [])] + case_file_targets(mod)
     ok, log = build(vo_targets)
     if not ok:
       # the proofs were developed against the committed snapshots of the generated files: if the regenerated text is what stops
